@@ -357,6 +357,16 @@ class P(Property):
                     for h in hsets:
                         out.append('send.req m=%s s=%s a=%s p=%s x=%s h=%s' % (hx(m), hx(b'https') if a != '-' else '-', a, hx(b'/p'), x, fl(h)))
                         out.append('send.req m=%s s=- a=%s p=- x=%s h=%s' % (hx(m), a, x, fl(h)))
+        for x in exts:
+            for sc in ('-', hx(b'https'), hx(b'http')):
+                for pa in (hx(b'/'), hx(b'/chat?room=1'), hx(b'/a/b'), hx(b'?q')):
+                    for h in ([], [(b'origin', b'https://h')], [(b'host', b'h:443')]):
+                        au = hx(b'h:443')
+                        if sc == '-':
+                            continue            # a Uri with authority and path needs a scheme
+                        out.append('send.req m=%s s=%s a=%s p=%s x=%s h=%s' % (hx(b'CONNECT'), sc, au, pa, x, fl(h)))
+            out.append('send.req m=%s s=- a=%s p=- x=%s h=-' % (hx(b'CONNECT'), hx(b'h:443'), x))
+            out.append('send.req m=%s s=- a=- p=%s x=%s h=%s' % (hx(b'CONNECT'), hx(b'/p?q'), x, fl([(b'host', b'h')])))
         names = [b'a', b'b', b'host', b'set-cookie', b'x-y', b'accept']
         for _ in range(1500 if tier == 'quick' else 100000):
             h = [(rng.choice(names), rng.choice([b'1', b'2', b'h', b'', b'v w'])) for _ in range(rng.randint(0, 8))]
@@ -490,6 +500,17 @@ class P(Property):
             return False                     # URI authority and (first) Host differ
         if a != '-' and d[b':authority'] != bytes.fromhex(a):
             return False
+        # RFC 9114 4.3.1 / 4.4, RFC 9220: every request carries :scheme and :path, except a plain CONNECT (no :protocol)
+        # which carries neither; an extended CONNECT (Protocol extension set by the caller) carries both and :protocol
+        plain_connect = d[b':method'] == b'CONNECT' and args['x'] == '-'
+        if plain_connect:
+            if b':scheme' in d or b':path' in d or b':protocol' in d:
+                return False
+        else:
+            if b':scheme' not in d or b':path' not in d:
+                return False
+            if d[b':method'] == b'CONNECT' and b':protocol' not in d:
+                return False
         s = args['s']
         if b':scheme' in d and s != '-' and d[b':scheme'] != (b'' if s == 'e' else bytes.fromhex(s)):
             return False
